@@ -365,7 +365,11 @@ def normbody(pid):
                     n += 1
                     val = pr._def((bb, i, st), 0, ())
                     m = re.match(r"^Result::Ok\(var:(\w+)\)$", val)
-                    if m and names.get(m.group(1)) in built:
+                    g_ = guards(ctx, f)
+                    exhausted = any(re.search(r"Path::components\(param:\w+\).* is (None|not Some)$", a_) for a_ in g_.atoms_at(("s", bb, i)))
+                    if m and names.get(m.group(1)) in built and not exhausted:
+                        res.fail(Finding(res.rule, "R-NORMBODY/%s/ok-before-all-components" % f.path, "name_chain_from_path returns Ok before the component iterator is exhausted: the rest of the path is ignored (a leading '.' then makes every path mean the root)", f, st["span"]))
+                    elif m and names.get(m.group(1)) in built:
                         res.ok({"function": f.path, "ok_payload": val[:60], "line": st["span"]["line"]}, nontrivial=True)
                     else:
                         res.fail(Finding(res.rule, "R-NORMBODY/%s/ok-payload-not-the-parsed-vector" % f.path, "name_chain_from_path returns %s, which is not the vector filled from Path::components(): this spelling skips the component parser, so '.', '..' or an empty component can come out as an object name while every other spelling of the same path is normalised" % val[:100], f, st["span"]))
@@ -411,5 +415,38 @@ def lookupexit(pid):
                     else:
                         res.fail(Finding(res.rule, "R-LOOKUPEXIT/%s/none-without-empty-link" % f.path, "the lookup can answer None although the link it stands on is not NO_STREAM (conditions on the path: %s): an object that exists and is listed cannot be found, opened or removed by name, and creating it again inserts a duplicate" % ("; ".join(a[:60] for a in atoms[:4]) or "none"), f, st["span"]))
         res.floor("None returns of the lookup", n, ctx.table("floors").get("lookupexit_sites", 0))
+        return res
+    return run
+
+
+def normuse(pid):
+    """R-NORMUSE: what the API layer does with the normaliser.  (a) Its error is the call's error: every call of
+    name_chain_from_path is propagated (`?`, returned, or matched with an Err arm that returns Err or a listed
+    constant answer) - never defaulted, which would turn an out-of-root path into the root.  (b) The chain it returns is
+    only ever shortened by `pop` / `split_last` (parent of the last name): clear, truncate, drain, remove or retain
+    on it throw away the storages the path went through."""
+    def run(ctx):
+        res = RuleResult("R-NORMUSE(%s)" % pid, "every result of name_chain_from_path is propagated or matched (never unwrap_or_default / ok()), and the name chain is only shortened by pop / split_last")
+        normaliser = ctx.table("norm").get("normaliser", "internal::path::name_chain_from_path")
+        n = 0
+        for f in ctx.fx.fns.values():
+            v = view(ctx, f)
+            pr = None
+            for bb, c in sorted(v.calls.items()):
+                if c.name == normaliser:
+                    n += 1
+                    k = v.disp(bb)["kind"]
+                    if k in ("try", "returned", "matched"):
+                        res.ok({"function": f.path, "line": c.line, "disposition": k}, nontrivial=True)
+                    else:
+                        res.fail(Finding(res.rule, "R-NORMUSE/%s/error-not-propagated" % f.path, "%s does not hand on the error of name_chain_from_path (disposition: %s%s): a path that leaves the root or has a prefix is treated as some other path (with a default, as the root itself) instead of being refused with InvalidInput" % (f.path.split("::")[-1], k, (" ." + v.disp(bb).get("detail", "")) if v.disp(bb).get("detail") else ""), f, c.term["span"]))
+                short = c.name.split("::")[-1]
+                if short in ("clear", "truncate", "drain", "remove", "swap_remove", "retain", "split_off", "dedup") and "Vec" in c.name and c.term["args"]:
+                    pr = pr or Prov(f)
+                    a0 = pr.operand(c.term["args"][0])
+                    if "name_chain_from_path(" in a0:
+                        n += 1
+                        res.fail(Finding(res.rule, "R-NORMUSE/%s/chain-%s" % (f.path, short), "%s applies Vec::%s to the name chain of the path: the storages the path went through are lost, so whatever is derived from the chain afterwards (the parent path of a walk, the parent of a creation) is that of another object" % (f.path.split("::")[-1], short), f, c.term["span"]))
+        res.floor("uses of the normaliser", n, ctx.table("floors").get("normuse_sites", 0))
         return res
     return run
